@@ -298,6 +298,12 @@ func loopBoundRule(P *Program, r *Result, rule string, fn *ssa.Function, isElemC
 			}
 		}
 		okBnd := isSize(stripWidening(bnd))
+		// for i := range s, with s made with exactly that many elements
+		if lc := builtinCall(stripWidening(bnd), "len"); !okBnd && lc != nil {
+			if ms, isMk := lc.Common().Args[0].(*ssa.MakeSlice); isMk && isSize(stripWidening(ms.Len)) {
+				okBnd = true
+			}
+		}
 		detail := ""
 		if !okCnt {
 			detail = "the loop counter is not a 0,1,2,… counter of at least 32 bits"
